@@ -8,7 +8,7 @@ VERIF = os.path.dirname(os.path.dirname(os.path.abspath(__file__)))
 SCENARIOS = [
     (r'^levmar\.set_params\.(seq|par)\.(noStale|coherent)$', [['stale_after_failed_set_params']]),
     (r'^levmar\.set_params\.(seq|par)\.pre$', [['nonfinite_phi', 'inf'], ['nonfinite_phi', 'nan']]),
-    (r'^stats\.try_calculate\.(arith|underdetermined.*)$', [['underdetermined', '3', '2', '2'], ['underdetermined', '4', '2', '2']]),
+    (r'^stats\.try_calculate\.(arith|pre|ok|underdetermined.*)$', [['underdetermined', '3', '2', '2'], ['underdetermined', '4', '2', '2']]),
 ]
 
 
